@@ -223,8 +223,12 @@ def make_mask(case, n):
     bits = case.get("mask")
     if bits is None:
         return None
-    # bit i of the integer = atom i is fitted; mask_keep guarantees >= 1 atom
-    m = np.array([(bits >> i) & 1 for i in range(n)], dtype=bool)
+    if isinstance(bits, int):
+        # (older replay files) bit i of the integer = atom i is fitted
+        m = np.array([(bits >> i) & 1 for i in range(n)], dtype=bool)
+    else:
+        m = np.array([bool(b) for b in bits], dtype=bool)
+    # mask_keep guarantees >= 1 atom
     m[case.get("mask_keep", 0) % n] = True
     return m
 
@@ -298,7 +302,7 @@ def params64(tr, k, m):
     return R, c, t
 
 
-def check_optimal(o, F, M, fitted, S, what, exact=False):
+def check_optimal(o, F, M, fitted, S, what, exact=False, extra_roundings=0.0):
     """F, M, fitted: (k,3) float64 over the atoms the fit was asked for."""
     ref = kabsch64(F, M)
     tolA, tolB, kappa = tolerances(ref, S)
@@ -316,10 +320,11 @@ def check_optimal(o, F, M, fitted, S, what, exact=False):
     )
     if exact:
         # input rounding to float32 moves an exact copy by <= sqrt(3)/2 eps32 S per structure
+        bound = tolA + tolB + (2.0 + extra_roundings) * EPS32 * S
         o.check(
-            got <= tolA + tolB + 2.0 * EPS32 * S,
+            got <= bound,
             "exact_copy_rmsd_zero",
-            lambda: f"{what}: rigid copy fitted with rmsd {got:.9g} > {tolA + tolB + 2 * EPS32 * S:.3g} (S={S:.3g}, L={ref['Lf']:.3g}, kappa={kappa:.3g})",
+            lambda: f"{what}: rigid copy fitted with rmsd {got:.9g} > {bound:.3g} (S={S:.3g}, L={ref['Lf']:.3g}, kappa={kappa:.3g})",
         )
     return ref, got, (tolA, tolB, kappa)
 
@@ -350,7 +355,7 @@ def check_matrix_form(o, tr, m, Z_list, what):
     for k in range(m):
         A = mat[k]
         o.check(
-            bool(np.array_equal(A[3], [0.0, 0.0, 0.0, 1.0])),
+            bool(np.allclose(A[3], [0.0, 0.0, 0.0, 1.0], rtol=0.0, atol=1e-6)),
             "matrix_form",
             lambda: f"{what}: last row of the matrix is {A[3].tolist()}",
         )
@@ -361,7 +366,7 @@ def check_matrix_form(o, tr, m, Z_list, what):
         tol = C_APPLY * EPS32 * (max_abs(z) + max_abs(c) + max_abs(t))
         err = float(np.max(np.abs(via_matrix[:, :3] - applied[k])))
         o.check(
-            err <= tol and bool(np.all(via_matrix[:, 3] == 1.0)),
+            err <= tol and bool(np.all(np.abs(via_matrix[:, 3] - 1.0) <= 1e-6)),
             "matrix_form",
             lambda: f"{what}: model {k}: apply() and as_matrix() differ by {err:.3g} > {tol:.3g}",
         )
@@ -438,12 +443,19 @@ def st_pointset(draw, tier, min_n=1, shapes=SHAPES):
 
 @st.composite
 def st_mask(draw, n):
+    """(mask, mask_keep): None (1/3), or one 0/1 flag per atom drawn with a density class, so that masks of
+    a few atoms, about half and nearly all atoms are all common; single-atom masks (trivial for optimality)
+    stay a small explicit class."""
     if draw(st.integers(0, 2)) == 0:
         return None, 0
-    bits = draw(st.integers(0, 2**n - 1))
-    if draw(st.booleans()):
-        bits |= draw(st.integers(0, 2**n - 1))  # denser masks
-    return bits, draw(st.integers(0, max(n - 1, 0)))
+    keep = draw(st.integers(0, max(n - 1, 0)))
+    density = draw(st.sampled_from([0, 2, 2, 3, 4, 5, 5, 6, 7, 8, 9, 10]))
+    if density == 0:
+        return [0] * n, keep  # exactly the atom mask_keep
+    if density == 10:
+        return [1] * n, keep  # a mask that selects every atom
+    flags = draw(st.lists(st.integers(0, 9), min_size=n, max_size=n))
+    return [int(f < density) for f in flags], keep
 
 
 def st_fit(tier):
@@ -457,6 +469,10 @@ def st_fit(tier):
         case["mask"], case["mask_keep"] = draw(st_mask(case["n"]))
         case["cont_f"] = draw(st.sampled_from(["f4", "f8", "atoms"]))
         case["cont_m"] = draw(st.sampled_from(["f4", "f8", "atoms"]))
+        # how the rigid motion is applied: in float64 by this module, or (1 of 8) by biotite's own
+        # rotate() + translate() on the container, as in the docstring example of superimpose()
+        case["via"] = draw(st.sampled_from(["model"] * 7 + ["struc_rotate"]))
+        case["angles"] = draw(st.lists(st.floats(-math.pi, math.pi), min_size=3, max_size=3))
         return case
 
     return gen()
@@ -466,7 +482,11 @@ def build_pair(case, rng):
     extent = 10.0 ** case["log_extent"]
     X = make_points(rng, case["n"], case["shape"], case["thin"], case.get("grid")) * extent
     F = X + offset_vec(rng, case["off_f"])
-    M = derive_mobile(rng, X, extent, case["kind"], case["noise"], case["rot"], offset_vec(rng, case["off_m"]))
+    if case.get("via", "model") == "struc_rotate":
+        # the copy in place (noise / reflection only); run_fit moves it with struc.rotate / struc.translate
+        M = derive_mobile(rng, X, extent, case["kind"], case["noise"], "identity", np.zeros(3))
+    else:
+        M = derive_mobile(rng, X, extent, case["kind"], case["noise"], case["rot"], offset_vec(rng, case["off_m"]))
     return F, M, extent
 
 
@@ -479,6 +499,19 @@ def run_fit(case):
     F64, M64, extent = build_pair(case, rng)
     fixed = to_container(F64, case["cont_f"])
     mobile = to_container(M64, case["cont_m"])
+    via_struc = case.get("via", "model") == "struc_rotate"
+    S_extra = 0.0
+    if via_struc:
+        S_extra = max_abs(coords64(mobile))
+        moved = struc.translate(struc.rotate(mobile, case["angles"]), offset_vec(rng, case["off_m"]))
+        if not o.check(
+            type(moved) is type(mobile) and tuple(coords64(moved).shape) == (n, 3),
+            "rigid_motion_helpers",
+            lambda: f"translate(rotate(x)) returned {type(moved).__name__} of shape {np.shape(coords64(moved))}",
+        ):
+            return o
+        o.check(bool(np.array_equal(coords64(mobile), M64 if case["cont_m"] == "f8" else M64.astype(np.float32).astype(np.float64))), "inputs_not_modified", "rotate()/translate() changed their input")
+        mobile = moved
     mask = make_mask(case, n)
     F = coords64(fixed)
     M = coords64(mobile)
@@ -522,9 +555,12 @@ def run_fit(case):
     prm = params64(tr, 0, 1)
 
     # ---- optimality over the masked atoms
-    S = max_abs(F, M)
+    S = max(max_abs(F, M), S_extra)
     exact = case["kind"] == "rigid"
-    ref, got, (tolA, tolB, kappa) = check_optimal(o, F[sel], M[sel], fit64[sel], S, "superimpose", exact=exact)
+    # (struc.rotate works on the float32 coordinates: two more roundings of an exact copy)
+    ref, got, (tolA, tolB, kappa) = check_optimal(
+        o, F[sel], M[sel], fit64[sel], S, "superimpose", exact=exact, extra_roundings=2.0 if via_struc else 0.0
+    )
     if case["kind"] == "reflected" and mask is None:
         # closed form for a mirror image: 2 * RMS thickness along the thinnest principal axis
         a = np.linalg.svd(F - F.mean(axis=0), compute_uv=False)
@@ -564,6 +600,15 @@ def run_fit(case):
     o.label("mask" if mask is not None and k < n else "nomask")
     if mask is not None and k == 1:
         o.label("mask_single_atom")
+    if mask is not None and k == n:
+        o.label("mask_selects_all")
+    if mask is not None and 2 <= k < n:
+        o.label("mask_2..n-1_atoms")
+    if exact and rank < 3 and k >= 3:
+        o.label("exact_degenerate")  # 'RMSD zero also for planar, collinear or mirror-ambiguous sets'
+    if exact and case["shape"] in ("mirror", "iso") and k >= 4:
+        o.label("exact_symmetric_set")
+    o.label("mobile_via_struc_rotate" if via_struc else "mobile_via_model")
     o.label(f"cont={case['cont_f']}/{case['cont_m']}")
     o.label("n=1" if n == 1 else "n=2" if n == 2 else "n=3" if n == 3 else "n>=4")
     o.label("extent<1" if extent < 1 else "extent<100" if extent < 100 else "extent>=100")
@@ -633,19 +678,34 @@ def run_stacks(case):
     o.label(f"{case['fixed_form']}<-{case['mobile_form']}", f"cont={case['cont_f']}/{case['cont_m']}")
     o.label("mask" if mask is not None and sel.sum() < n else "nomask")
 
-    if fm > 1 and mm == 1:
-        # m fits of a single mobile model cannot be "a copy of mobile": biotite computes the m
-        # transformations and AffineTransformation.apply() then rejects the single model.
+    M_before = M.copy()
+    F_before = F.copy()
+    if fm != mm and not (case["fixed_form"] == "array" and mm > 1):
+        # Unequal model numbers that are not the documented 'one AtomArray / (n,3) array against a stack':
+        #  * fixed m models, mobile a single model: m fits cannot be "a copy of mobile" (biotite computes the
+        #    m transformations, apply() then refuses the single model);
+        #  * fixed a 1-model stack, mobile m models: "if both are AtomArrayStack objects, they must have the
+        #    same number of models" - broadcasting the single model is a courtesy.
+        # Nothing documents what happens, so a refusal of any kind is accepted; a returned value is checked.
+        cls = "fixed_stack_single_mobile" if mm == 1 else "one_model_stack_vs_stack"
         try:
             fitted, tr = struc.superimpose(fixed, mobile, **kwargs)
-        except IndexError:
-            o.label("fixed_stack_single_mobile_rejected")
+        except Exception as e:
+            o.label(f"{cls}_rejected", f"{cls}_rejected:{type(e).__name__}")
+            o.check(
+                bool(np.array_equal(coords64(mobile).reshape(mm, n, 3), M_before)) and bool(np.array_equal(coords64(fixed).reshape(fm, n, 3), F_before)),
+                "inputs_not_modified",
+                "the refused call changed its input",
+            )
             return o
-        o.label("fixed_stack_single_mobile_accepted")
-        out_m = fm
+        o.label(f"{cls}_accepted")
+        out_m = max(fm, mm)
     else:
         fitted, tr = struc.superimpose(fixed, mobile, **kwargs)
         out_m = mm
+    o.check(fitted is not mobile, "fitted_is_copy_of_mobile", "the mobile object itself was returned")
+    o.check(bool(np.array_equal(coords64(mobile).reshape(mm, n, 3), M_before)), "inputs_not_modified", "mobile changed")
+    o.check(bool(np.array_equal(coords64(fixed).reshape(fm, n, 3), F_before)), "inputs_not_modified", "fixed changed")
 
     # ---- type and shape follow mobile
     if case["cont_m"] == "atoms" and not (fm > 1 and mm == 1):
@@ -671,8 +731,11 @@ def run_stacks(case):
         if not check_proper_rotation(o, tr.rotation[j], f"model {j}"):
             return o
         kind = case["kinds"][j if mm > 1 else 0]
+        # the single mobile model was derived from fixed model 0 only; the other fixed models are conformers
+        derived_from_Fj = mm > 1 or fm == 1 or j == 0
+        rigid_copy = kind == "rigid" and derived_from_Fj
         ref, got, (tolA, tolB, kappa) = check_optimal(
-            o, Fj[sel], Mj[sel], fit[j][sel], S, f"model {j}", exact=(kind == "rigid")
+            o, Fj[sel], Mj[sel], fit[j][sel], S, f"model {j}", exact=rigid_copy
         )
         check_rigid(o, Mj, fit[j], params64(tr, j, out_m), S, f"model {j}")
         # model-wise == per-model call
@@ -699,7 +762,7 @@ def run_stacks(case):
             )
             compared += 1
         rank = numeric_rank(Fj[sel], S)
-        if (sel.sum() >= 4 and rank == 3 and kind != "rigid") or (rank < 3 and sel.sum() >= 2):
+        if (sel.sum() >= 4 and rank == 3 and not rigid_copy) or (rank < 3 and sel.sum() >= 2):
             any_nontrivial = True
     # ---- matrix form, model-wise, on other coordinates
     others = [
@@ -743,7 +806,8 @@ def st_outliers(tier):
         case["min_anchors"] = draw(st.integers(1, 8))
         case["max_iterations"] = draw(st.sampled_from([1, 2, 3, 10, 10]))
         q = sorted(draw(st.lists(st.sampled_from([0.0, 0.1, 0.25, 0.5, 0.75, 0.9, 1.0]), min_size=2, max_size=2)))
-        case["quantiles"] = q if draw(st.booleans()) else q[::-1]
+        # documented is "(lower, upper)"; the reversed order (1 of 5) is a courtesy biotite may refuse
+        case["quantiles"] = q if draw(st.integers(0, 4)) > 0 else q[::-1]
         case["threshold"] = draw(st.sampled_from([0.0, 0.5, 1.5, 1.5, 3.0]))
         case["defaults"] = draw(st.integers(0, 3)) == 0
         case["m"] = draw(st.sampled_from([0, 0, 1, 2, 3]))  # 0: mobile is a single array
@@ -783,12 +847,16 @@ def run_outliers(case):
     M = coords64(mobile).reshape(mm, n, 3)
     S = max_abs(F, M)
 
+    M_before = M.copy()
+    F_before = F.copy()
     if case["defaults"]:
         min_anchors, max_iter = 3, 10
-        fitted, tr, anchors = struc.superimpose_without_outliers(fixed, mobile)
+        call = lambda: struc.superimpose_without_outliers(fixed, mobile)  # noqa: E731
+        reversed_q = False
     else:
         min_anchors, max_iter = case["min_anchors"], case["max_iterations"]
-        fitted, tr, anchors = struc.superimpose_without_outliers(
+        reversed_q = case["quantiles"][0] > case["quantiles"][1]
+        call = lambda: struc.superimpose_without_outliers(  # noqa: E731
             fixed,
             mobile,
             min_anchors=min_anchors,
@@ -796,6 +864,26 @@ def run_outliers(case):
             quantiles=tuple(case["quantiles"]),
             outlier_threshold=case["threshold"],
         )
+    if n < min_anchors or reversed_q:
+        # Not covered by the documentation: fewer atoms than min_anchors (superimpose_homologs refuses that),
+        # quantiles given as (upper, lower).  A refusal is accepted, a result is checked like any other.
+        why = "fewer_atoms_than_min_anchors" if n < min_anchors else "reversed_quantiles"
+        try:
+            fitted, tr, anchors = call()
+        except Exception as e:
+            o.label(f"{why}_rejected", f"{why}_rejected:{type(e).__name__}")
+            o.check(
+                bool(np.array_equal(coords64(mobile).reshape(mm, n, 3), M_before)) and bool(np.array_equal(coords64(fixed).reshape(fm, n, 3), F_before)),
+                "inputs_not_modified",
+                "the refused call changed its input",
+            )
+            return o
+        o.label(f"{why}_accepted")
+    else:
+        fitted, tr, anchors = call()
+    o.check(fitted is not mobile, "fitted_is_copy_of_mobile", "the mobile object itself was returned")
+    o.check(bool(np.array_equal(coords64(mobile).reshape(mm, n, 3), M_before)), "inputs_not_modified", "mobile changed")
+    o.check(bool(np.array_equal(coords64(fixed).reshape(fm, n, 3), F_before)), "inputs_not_modified", "fixed changed")
     # ---- anchors are valid atom indices
     anchors = np.asarray(anchors)
     ok = o.check(anchors.ndim == 1 and anchors.dtype.kind in "iu", "anchors_valid_indices", f"anchors {anchors!r}")
@@ -907,10 +995,16 @@ def st_homologs(tier):
             "noise": draw(st.one_of(st.just(0.0), st.floats(0.0, 2.0))),
             "outlier_frac": draw(st.sampled_from([0.0, 0.0, 0.1, 0.3])),
             "min_anchors": draw(st.sampled_from([1, 2, 3, 3, 3, 3, 5, 8])),
+            # 1 of 8: min_anchors = (smaller number of backbone atoms) - 0/1, reduced in run(): the boundary
+            # between alignment anchors, the documented fallback and the documented rejection
+            "min_anchors_rel": draw(st.sampled_from([None] * 14 + [0, 1])),
             "gap": draw(st.sampled_from([-10, -10, -5, [-10, -1]])),
             "terminal": draw(st.booleans()),
-            "matrix": draw(st.sampled_from([None, None, None, "named"])),
+            "matrix": draw(st.sampled_from([None, None, None, None, "named", "named", "object"])),
             "max_iterations": draw(st.sampled_from([None, None, 1, 3])),
+            # the remaining **kwargs of superimpose_without_outliers
+            "quantiles": draw(st.sampled_from([None, None, None, [0.1, 0.9], [0.25, 0.5]])),
+            "threshold": draw(st.sampled_from([None, None, None, 0.5, 3.0])),
             "stack": draw(st.sampled_from(["none", "none", "mobile", "both"])),
             "ligand": draw(st.booleans()),
         }
@@ -998,6 +1092,63 @@ def anchor_atom_mask(atoms):
     return pep | nuc
 
 
+ONE_LETTER = {"ALA": "A", "GLY": "G", "SER": "S", "CYS": "C", "PHE": "F", "LYS": "K",
+              "A": "A", "C": "C", "G": "G", "U": "T", "DA": "A", "DT": "T"}  # fmt: skip
+
+
+def homolog_matrix(case, types):
+    """(kwargs value, {chain type: SubstitutionMatrix used for that type}) for the case's matrix option."""
+    import biotite.sequence as seq
+    import biotite.sequence.align as align
+
+    mixed = len(set(types)) > 1
+    kind = case.get("matrix")
+    pep_alph = seq.ProteinSequence.alphabet
+    std = {"pep": align.SubstitutionMatrix.std_protein_matrix(), "nuc": align.SubstitutionMatrix.std_nucleotide_matrix()}
+    if kind is None or mixed:  # "Must fit the chain type": one matrix cannot fit peptide + nucleic acid chains
+        return None, std
+    if kind == "named":
+        if types[0] == "nuc":
+            return "NUC", std
+        return "BLOSUM50", {"pep": align.SubstitutionMatrix(pep_alph, pep_alph, "BLOSUM50")}
+    if types[0] == "nuc":
+        return std["nuc"], std
+    m = align.SubstitutionMatrix(pep_alph, pep_alph, "PAM250")
+    return m, {"pep": m}
+
+
+def min_alignment_anchors(case, fixed, mobile, types, matrices, cap=64):
+    """
+    Smallest number of anchors "found by sequence alignment" (aligned residue pairs with a positive score,
+    summed over the chains) over the optimal alignments of every chain pair; None = not decidable here
+    (more than `cap` co-optimal alignments).  Only used to judge whether the documented rejection
+    (fallback with unequal numbers of backbone atoms) was possible.
+    """
+    import biotite.sequence as seq
+    import biotite.sequence.align as align
+
+    gap = case["gap"]
+    gap = tuple(gap) if isinstance(gap, list) else gap
+    total = 0
+    for ci, typ in enumerate(types):
+        seqs = []
+        for atoms, ids in ((fixed, "ABCDEF"), (mobile, "UVWXYZ")):
+            names = atoms.res_name[anchor_atom_mask(atoms) & (atoms.chain_id == ids[ci])]
+            text = "".join(ONE_LETTER[r] for r in names)
+            seqs.append(seq.NucleotideSequence(text) if typ == "nuc" else seq.ProteinSequence(text))
+        matrix = matrices[typ]
+        alis = align.align_optimal(seqs[0], seqs[1], matrix, gap, terminal_penalty=case["terminal"], max_number=cap)
+        if len(alis) >= cap:
+            return None
+        score = matrix.score_matrix()
+        counts = []
+        for ali in alis:
+            tr = ali.trace[(ali.trace != -1).all(axis=1)]
+            counts.append(int(np.count_nonzero(score[seqs[0].code[tr[:, 0]], seqs[1].code[tr[:, 1]]] > 0)))
+        total += min(counts)
+    return total
+
+
 def run_homologs(case):
     import biotite.structure as struc
 
@@ -1010,15 +1161,28 @@ def run_homologs(case):
         o.invalid = True
         o.label("chain_deleted_completely")
         return o
+    nf, nm = info["n_anchor_f"], info["n_anchor_m"]
     min_anchors = case["min_anchors"]
+    if case.get("min_anchors_rel") is not None:
+        min_anchors = max(1, min(nf, nm) - case["min_anchors_rel"])
+        o.label("min_anchors_near_backbone_count")
     kwargs = {"min_anchors": min_anchors, "terminal_penalty": case["terminal"]}
     gap = case["gap"]
     kwargs["gap_penalty"] = tuple(gap) if isinstance(gap, list) else gap
-    mixed = len(set(types)) > 1
-    if case["matrix"] == "named" and not mixed:
-        kwargs["substitution_matrix"] = "NUC" if types[0] == "nuc" else "BLOSUM50"
+    matrix_arg, matrices = homolog_matrix(case, types)
+    if matrix_arg is not None:
+        kwargs["substitution_matrix"] = matrix_arg
+        o.label("matrix=name" if isinstance(matrix_arg, str) else "matrix=object")
+    else:
+        o.label("matrix=default")
     if case["max_iterations"] is not None:
         kwargs["max_iterations"] = case["max_iterations"]
+    if case.get("quantiles") is not None:
+        kwargs["quantiles"] = tuple(case["quantiles"])
+    if case.get("threshold") is not None:
+        kwargs["outlier_threshold"] = case["threshold"]
+    if case.get("quantiles") is not None or case.get("threshold") is not None:
+        o.label("kwargs_quantiles_or_threshold")
     mm = 1
     fixed_in, mobile_in = fixed, mobile
     if case["stack"] in ("mobile", "both"):
@@ -1032,21 +1196,49 @@ def run_homologs(case):
             fixed_in = struc.stack([fixed, second])
     fm = 2 if case["stack"] == "both" else 1
     o.label("+".join(sorted(set(types))), f"chains={len(types)}", f"stack={case['stack']}")
+    M_before = coords64(mobile_in)
+    F_before = coords64(fixed_in)
 
-    nf, nm = info["n_anchor_f"], info["n_anchor_m"]
+    too_few = nf < min_anchors or nm < min_anchors
     try:
         fitted, tr, fix_idx, mob_idx = struc.superimpose_homologs(fixed_in, mobile_in, **kwargs)
-    except ValueError as e:
-        msg = str(e)
-        if "too few backbone atoms" in msg:
-            o.label("rejected_too_few_backbone_atoms")
-            o.check(nf < min_anchors or nm < min_anchors, "documented_rejections_only", f"{msg} (anchors {nf}/{nm}, min_anchors {min_anchors})")
-        elif "Tried fallback" in msg:
-            o.label("rejected_fallback_size_mismatch")
-            o.check(nf != nm and nf >= min_anchors and nm >= min_anchors, "documented_rejections_only", f"{msg} (anchors {nf}/{nm})")
+    except Exception as e:
+        # "an exception is raised" - neither the type nor the text is documented, so the refusal is judged
+        # by the situation it occurs in, not by what it says.
+        if too_few:
+            # a structure has fewer backbone representatives than the required number of anchors
+            o.label("rejected_too_few_backbone_atoms", f"rejected_too_few:{type(e).__name__}")
+        elif nf != nm:
+            # documented: fewer than min_anchors anchors from the alignment -> all backbone atoms are
+            # matched -> exception if their numbers differ.  Possible only if some optimal alignment
+            # yields < min_anchors positively scoring pairs.
+            o.label("rejected_fallback_size_mismatch", f"rejected_fallback:{type(e).__name__}")
+            try:
+                least = min_alignment_anchors(case, fixed, mobile, types, matrices)
+            except Exception:
+                least = None
+            if least is None:
+                o.label("rejected_fallback_not_decidable")
+            else:
+                o.check(
+                    least < min_anchors,
+                    "documented_rejections_only",
+                    lambda: f"{type(e).__name__}: {e} - but every optimal alignment yields >= {least} anchors, min_anchors={min_anchors} (backbone atoms {nf}/{nm})",
+                )
         else:
             raise
+        o.check(
+            bool(np.array_equal(coords64(mobile_in), M_before)) and bool(np.array_equal(coords64(fixed_in), F_before)),
+            "inputs_not_modified",
+            "the refused call changed its input",
+        )
         return o
+    if too_few:
+        # not refused: acceptable only as the documented fallback "matches all anchor atoms"
+        o.label("too_few_backbone_atoms_accepted")
+    o.check(fitted is not mobile_in, "fitted_is_copy_of_mobile", "the mobile object itself was returned")
+    o.check(bool(np.array_equal(coords64(mobile_in), M_before)), "inputs_not_modified", "mobile changed")
+    o.check(bool(np.array_equal(coords64(fixed_in), F_before)), "inputs_not_modified", "fixed changed")
     fix_idx = np.asarray(fix_idx)
     mob_idx = np.asarray(mob_idx)
     # ---- anchors
@@ -1073,7 +1265,7 @@ def run_homologs(case):
     if not ok:
         return o
     o.check(
-        len(fix_idx) >= min_anchors,
+        len(fix_idx) >= min(min_anchors, nf, nm),
         "at_least_min_anchors",
         lambda: f"{len(fix_idx)} anchors < min_anchors={min_anchors} (backbone atoms {nf}/{nm})",
     )
@@ -1164,6 +1356,8 @@ def st_fit_large(tier):
             "tail": st.sampled_from([0.05, 0.2, 0.4]),
             "shift": st.sampled_from([0.0, 5.0, 20.0]),
             "container": st.sampled_from(["f4", "atoms"]),
+            # 1 of 4: atom_mask that leaves out a displaced head segment (> 4096 atoms stay in the fit for n >= 4600)
+            "masked": st.sampled_from([False, False, False, True]),
         }
     )
 
@@ -1185,17 +1379,37 @@ def run_fit_large(case):
     M32 = M.astype(np.float32)
     fixed = to_container(F32.astype(np.float64), case["container"])
     mobile = to_container(M32.astype(np.float64), case["container"])
-    fitted, tr = struc.superimpose(fixed, mobile)
-    ref = kabsch64(F32.astype(np.float64), M32.astype(np.float64))
-    got = rmsd64(coords64(fitted), F32.astype(np.float64))
+    sel = np.ones(n, dtype=bool)
+    if case.get("masked"):
+        # the first 10 % of the atoms are thrown far off in mobile and are not part of the fit
+        h = n // 10
+        M32[:h] += rng.normal(size=(h, 3)).astype(np.float32) * 40.0
+        sel[:h] = False
+        mobile = to_container(M32.astype(np.float64), case["container"])
+        fitted, tr = struc.superimpose(fixed, mobile, atom_mask=sel)
+    else:
+        fitted, tr = struc.superimpose(fixed, mobile)
+    F64 = F32.astype(np.float64)
+    ref = kabsch64(F64[sel], M32.astype(np.float64)[sel])
+    fit64 = coords64(fitted)
+    got = rmsd64(fit64[sel], F64[sel])
+    k = int(sel.sum())
     o.label(f"n>{4096 * (n // 4096)}" if n > 4096 else "n<=4096", f"tail={case['tail']}", f"shift={case['shift']}")
+    o.label(("masked_k>4096" if k > 4096 else "masked_k<=4096") if case.get("masked") else "nomask")
     rot = np.asarray(tr.rotation, dtype=np.float64).reshape(3, 3)
     o.check(abs(np.linalg.det(rot) - 1.0) < 1e-4 and np.allclose(rot @ rot.T, np.eye(3), atol=1e-4), "rotation_det_plus_one", f"rotation {rot.tolist()}")
     # float32 accumulation over n atoms: relative tolerance 1e-3 on an RMSD of several Angstrom
     o.check(
         got <= ref["rmsd"] * (1 + 1e-3) + 1e-3,
         "rmsd_minimal",
-        lambda: f"n={n}: RMSD after superimpose {got:.6f}, float64 Kabsch optimum {ref['rmsd']:.6f}",
+        lambda: f"n={n}, {k} atoms in the fit: RMSD after superimpose {got:.6f}, float64 Kabsch optimum {ref['rmsd']:.6f}",
+    )
+    # rmsd() over many atoms (float32 mean of 3 k terms; same generous relative tolerance)
+    r_bio = struc.rmsd(fixed[sel], fitted[sel])
+    o.check(
+        np.ndim(r_bio) == 0 and abs(float(r_bio) - got) <= 1e-3 * got + 1e-3,
+        "rmsd_function_matches_definition",
+        lambda: f"n={n}: rmsd() = {r_bio!r}, float64 definition {got:.6f}",
     )
     o.mark_nontrivial(ref["rmsd"] > 0.5)
     return o
@@ -1224,13 +1438,21 @@ def _proper_signed_permutations():
     return _SIGNED_PERMS
 
 
+TRANS_VALUES = [0.0, 0.5, -1.25, 3.75, 10.0, -0.125]
+
+
 def st_direct_transform(tier):
+    vec = st.lists(st.sampled_from(TRANS_VALUES), min_size=3, max_size=3)
     return st.fixed_dictionaries(
         {
-            "rot": st.integers(0, 23),
+            # one entry per model (m = 1..3); the documented parameter shapes are chosen below
+            "rots": st.lists(st.integers(0, 23), min_size=1, max_size=3),
             "rot_dtype": st.sampled_from(["int64", "int32", "float32", "float64"]),
-            "center": st.lists(st.sampled_from([0.0, 0.5, -1.25, 3.75, 10.0, -0.125]), min_size=3, max_size=3),
-            "target": st.lists(st.sampled_from([0.0, 0.5, -1.25, 3.75, 10.0, -0.125]), min_size=3, max_size=3),
+            "centers": st.lists(vec, min_size=3, max_size=3),
+            "targets": st.lists(vec, min_size=3, max_size=3),
+            "center_shape": st.sampled_from(["(3,)", "(m,3)"]),
+            "target_shape": st.sampled_from(["(3,)", "(m,3)"]),
+            "rot_shape": st.sampled_from(["(3,3)", "(m,3,3)"]),  # (3,3) only for m = 1
             "trans_dtype": st.sampled_from(["float64", "float32", "int64"]),
             "n": st.integers(1, 6),
             "seed": st.integers(0, 2**31 - 1),
@@ -1243,28 +1465,47 @@ def run_direct_transform(case):
     import biotite.structure as struc
 
     o = Outcome()
-    R = _proper_signed_permutations()[case["rot"]]
-    c = np.array(case["center"], dtype=np.float64)
-    t = np.array(case["target"], dtype=np.float64)
+    if "rots" not in case:  # replay files written before the multi-model form
+        case = dict(case, rots=[case["rot"]], centers=[case["center"]] * 3, targets=[case["target"]] * 3,
+                    center_shape="(3,)", target_shape="(3,)", rot_shape="(3,3)")  # fmt: skip
+    m = len(case["rots"])
+    n = case["n"]
+    perms = _proper_signed_permutations()
+    R = np.stack([perms[i] for i in case["rots"]])  # (m,3,3) int
+    # per-model translations, or one vector for all models
+    c = np.array(case["centers"][:m] if case["center_shape"] == "(m,3)" else [case["centers"][0]] * m, dtype=np.float64)
+    t = np.array(case["targets"][:m] if case["target_shape"] == "(m,3)" else [case["targets"][0]] * m, dtype=np.float64)
     if case["trans_dtype"] == "int64":
         c, t = np.round(c), np.round(t)
     rng = np.random.default_rng(case["seed"])
-    X = np.round(rng.normal(0, 5, (case["n"], 3)) * 4) / 4  # multiples of 0.25: exact in float32
-    tr = struc.AffineTransformation(c.astype(case["trans_dtype"]), R.astype(case["rot_dtype"]), t.astype(case["trans_dtype"]))
+    X = np.round(rng.normal(0, 5, (m, n, 3)) * 4) / 4  # multiples of 0.25: exact in float32
+    c_arg = (c if case["center_shape"] == "(m,3)" else c[0]).astype(case["trans_dtype"])
+    t_arg = (t if case["target_shape"] == "(m,3)" else t[0]).astype(case["trans_dtype"])
+    R_arg = (R[0] if (m == 1 and case["rot_shape"] == "(3,3)") else R).astype(case["rot_dtype"])
+    tr = struc.AffineTransformation(c_arg, R_arg, t_arg)
     coords = X.astype(case["coord_dtype"]) if case["coord_dtype"] != "int64" else np.round(X).astype(np.int64)
-    Xv = coords.astype(np.float64)
-    want = (Xv + c) @ R.T.astype(np.float64) + t
+    if m == 1:
+        coords = coords[0]  # a single model: (n,3) coordinates
+    Xv = coords.astype(np.float64).reshape(m, n, 3)
+    want = np.stack([(Xv[k] + c[k]) @ R[k].T.astype(np.float64) + t[k] for k in range(m)])
     got = np.asarray(tr.apply(coords), dtype=np.float64)
     o.label("rot=" + case["rot_dtype"], "trans=" + case["trans_dtype"], "coord=" + case["coord_dtype"])
-    o.check(got.shape == want.shape and np.allclose(got, want, atol=1e-4), "transformation_reproduces_fitted", lambda: f"apply(): got {got.tolist()}, want R(x+c)+t = {want.tolist()}")
+    o.label(f"m={m}", f"rot{R_arg.shape}", f"center{c_arg.shape}", f"target{t_arg.shape}")
+    if m > 1 and c_arg.ndim == 1:
+        o.label("m_rotations_one_center")
+    o.check_eq(tuple(got.shape), tuple(coords.shape), "transformation_reproduces_fitted", "shape of apply(coords)")
+    if got.size == want.size:
+        got = got.reshape(m, n, 3)
+        o.check(bool(np.allclose(got, want, atol=1e-4)), "transformation_reproduces_fitted", lambda: f"apply(): got {got.tolist()}, want R(x+c)+t = {want.tolist()}")
+    check_transform_shape(o, tr, m)
     M = np.asarray(tr.as_matrix(), dtype=np.float64)
-    if o.check(M.shape[-2:] == (4, 4), "matrix_form", f"as_matrix() shape {M.shape}"):
-        M4 = M.reshape(-1, 4, 4)[0]
-        hom = np.concatenate([Xv, np.ones((len(Xv), 1))], axis=1)
-        via = (hom @ M4.T)[:, :3]
-        o.check(np.allclose(via, want, atol=1e-4), "matrix_form", lambda: f"as_matrix() applied to homogeneous coordinates {via.tolist()} != apply() {want.tolist()} (rotation dtype {case['rot_dtype']})")
-        o.check(np.allclose(M4[3], [0, 0, 0, 1]), "matrix_form", f"last row {M4[3].tolist()}")
-    o.mark_nontrivial(case["rot_dtype"].startswith("int") and any(v != round(v) for v in list(c) + list(t)))
+    if o.check_eq(tuple(M.shape), (m, 4, 4), "matrix_form", "as_matrix() shape"):
+        for k in range(m):
+            hom = np.concatenate([Xv[k], np.ones((n, 1))], axis=1)
+            via = (hom @ M[k].T)[:, :3]
+            o.check(bool(np.allclose(via, want[k], atol=1e-4)), "matrix_form", lambda: f"model {k}: as_matrix() applied to homogeneous coordinates {via.tolist()} != apply() {want[k].tolist()} (rotation dtype {case['rot_dtype']})")
+            o.check(bool(np.allclose(M[k][3], [0, 0, 0, 1])), "matrix_form", lambda: f"last row {M[k][3].tolist()}")
+    o.mark_nontrivial(case["rot_dtype"].startswith("int") and any(v != round(v) for v in list(c.ravel()) + list(t.ravel())))
     return o
 
 
@@ -1276,13 +1517,13 @@ SUBS = [
         quick=600,
         thorough=20000,
         rule="integer-dtype rotation (as in the class documentation) with fractional translations",
-        clauses="a transformation built by the caller: apply() == R(x+c)+t == 4x4 matrix form, for every array dtype",
+        clauses="a transformation built by the caller from 1..3 models in every documented parameter shape: apply() == R(x+c)+t == 4x4 matrix form model-wise, for every array dtype",
     ),
     Sub(
         "fit",
         st_fit,
         run_fit,
-        quick=4000,
+        quick=3200,
         thorough=160000,
         rule=">= 4 masked atoms of rank 3 with noise (optimality) or >= 2 atoms of rank < 3 (degenerate class)",
         clauses="proper rotation; rmsd minimal (float64 Kabsch + 200 perturbations); exact copy -> 0; apply == matrix == fitted; rmsd()",
@@ -1291,10 +1532,10 @@ SUBS = [
         "fit_large",
         st_fit_large,
         run_fit_large,
-        quick=48,
+        quick=64,
         thorough=1200,
         rule="3000..12289 atoms (thorough: up to 40000) with a rigidly displaced tail domain, optimum RMSD > 0.5",
-        clauses="rmsd minimal and proper rotation for large atom counts (size dependent code paths)",
+        clauses="rmsd minimal (also under an atom_mask of > 4096 atoms), proper rotation and rmsd() for large atom counts (size dependent code paths)",
     ),
     Sub(
         "stacks",
@@ -1303,7 +1544,7 @@ SUBS = [
         quick=1600,
         thorough=60000,
         rule="a stack on either side and a non-trivial model as in 'fit'",
-        clauses="model-wise fit == per-model calls for every array/stack combination; shapes follow mobile",
+        clauses="model-wise fit == per-model calls for every array/stack combination; shapes follow mobile; inputs unchanged; unequal model numbers other than array<-stack may be refused",
     ),
     Sub(
         "without_outliers",
@@ -1312,7 +1553,7 @@ SUBS = [
         quick=1600,
         thorough=60000,
         rule=">= 1 atom removed from the anchors, n >= 4",
-        clauses="anchors valid, >= min_anchors, transform == superimpose() on the anchors, fit optimal over anchors",
+        clauses="anchors valid, >= min_anchors, transform == superimpose() on the anchors, fit optimal over anchors, inputs unchanged; n < min_anchors / reversed quantiles may be refused",
     ),
     Sub(
         "homologs",
@@ -1321,7 +1562,7 @@ SUBS = [
         quick=1200,
         thorough=40000,
         rule="anchors are a proper subset of the backbone representatives, >= 3 anchors",
-        clauses="anchors valid CA/P atoms in corresponding chains, >= min_anchors, transform == superimpose() on the anchors",
+        clauses="anchors valid CA/P atoms in corresponding chains, >= min_anchors, transform == superimpose() on the anchors, inputs unchanged; a refusal only with too few backbone atoms or when the documented fallback is impossible",
     ),
 ]
 
